@@ -21,8 +21,13 @@ structure St where
   c : Collector.St
   /-- lair `Bonded{address}` per address: `none` = no bonded assets, `some fb` = first bonded epoch id -/
   view : Nat → Option Nat
-  /-- distribution-asset balance per address -/
-  ub : Nat → Nat
+  /-- balance per address and asset -/
+  ub : Nat → Nat → Nat
+  /-- the DAO's balance per asset (the take rate is paid in whatever the distribution asset is) -/
+  daoBal : Nat → Nat
+  /-- the router's swap routes: `rts ask offer` = hops of the route `offer → ask`; `[]` = none.  The
+      collector asks for routes towards the CURRENT distribution asset (`cview`) -/
+  rts : Nat → Nat → List (Nat × Nat)
 
 inductive Op where
   | newEpoch (now : Nat) (router : Nat → Nat → Nat → Nat) (acc : Nat → Nat → Nat)
@@ -36,14 +41,31 @@ inductive Op where
   | swap (res pool side fee : Nat)
   | loan (res vault fee : Nat)
   | gift (toCollector : Bool) (asset amount : Nat)
-  | addRoute (sender asset : Nat) (hops : List (Nat × Nat))
-  | rmRoute (sender asset : Nat)
+  | addRoute (sender offer ask : Nat) (hops : List (Nat × Nat))
+  | rmRoute (sender offer ask : Nat)
+  /-- `fee_distributor::UpdateConfig { distribution_asset }` -/
+  | setDist (sender asset : Nat)
   | unreg (sender pool : Nat)
   | toggle (sender pool : Nat) (on : Bool)
   /-- `CollectFees` sent to the collector directly, in mid-history, by anybody -/
   | collect (sender : Nat) (f : Collector.FeesFor)
   /-- `AggregateFees` sent to the collector directly; router outputs / accrued fees as recorded -/
   | aggregate (sender : Nat) (f : Collector.FeesFor) (router : Nat → Nat → Nat → Nat) (acc : Nat → Nat → Nat)
+
+/-- the collector's configuration / state as it sees them now: `query_distribution_asset` asks the
+    distributor for its CURRENT `distribution_asset` on every aggregation and in the reply, and the router
+    is asked for routes towards it -/
+def ccfg (cfg : Cfg) (s : St) : Collector.Cfg := { cfg.c with dist := s.d.dist }
+def cview (s : St) : Collector.St := { s.c with routes := s.rts s.d.dist }
+
+def updRts (f : Nat → Nat → List (Nat × Nat)) (ask offer : Nat) (v : List (Nat × Nat)) :
+    Nat → Nat → List (Nat × Nat) :=
+  fun a o => if a = ask ∧ o = offer then v else f a o
+
+/-- credit a claim's payout (one bank send per asset) to the claimer -/
+def credit (ub : Nat → Nat → Nat) (u : Nat) : Distributor.Ledger → Nat → Nat → Nat
+  | [] => ub
+  | (a, x) :: r => credit (fun v b => if v = u ∧ b = a then ub v b + x else ub v b) u r
 
 def updOpt (f : Nat → Option Nat) (i : Nat) (v : Option Nat) : Nat → Option Nat := fun j => if j = i then v else f j
 def updHops (f : Nat → List (Nat × Nat)) (i : Nat) (v : List (Nat × Nat)) : Nat → List (Nat × Nat) :=
@@ -68,10 +90,10 @@ def newEpoch (cfg : Cfg) (s : St) (now : Nat) (router : Nat → Nat → Nat → 
     Res (St × Collector.Out) :=
   match Distributor.nextEpoch cfg.d s.d now with
   | .ok (id, start) =>
-    match Collector.forwardFees cfg.c s.c cfg.c.distributor id router acc with
+    match Collector.forwardFees (ccfg cfg s) (cview s) cfg.c.distributor id router acc with
     | .ok o =>
       match Distributor.receiveEpoch s.d id start o.inflow with
-      | .ok d' => .ok ({ s with d := d', c := o.st }, o)
+      | .ok d' => .ok ({ s with d := d', c := o.st, daoBal := Collector.add s.daoBal s.d.dist o.take }, o)
       | .err => .err
       | .panic => .panic
     | .err => .err
@@ -87,7 +109,7 @@ def step (cfg : Cfg) (s : St) : Op → Res St
     | .panic => .panic
   | .claim u ans =>
     match Distributor.claim s.d u (s.view u) ans with
-    | .ok (d', paid) => .ok { s with d := d', ub := Collector.add s.ub u paid }
+    | .ok (d', paid) => .ok { s with d := d', ub := credit s.ub u paid }
     | .err => .err
     | .panic => .panic
   | .bond u res view =>
@@ -105,7 +127,7 @@ def step (cfg : Cfg) (s : St) : Op → Res St
     | .err => .err
     | .panic => .panic
   | .fwd sender =>
-    match Collector.forwardFees cfg.c s.c sender 0 (fun _ _ _ => 0) (fun _ _ => 0) with
+    match Collector.forwardFees (ccfg cfg s) (cview s) sender 0 (fun _ _ _ => 0) (fun _ _ => 0) with
     | .ok o => .ok { s with c := o.st }     -- unreachable for sender ≠ distributor (C10.forward_auth)
     | .err => .err
     | .panic => .panic
@@ -116,16 +138,20 @@ def step (cfg : Cfg) (s : St) : Op → Res St
     ofCode res { s with c := { s.c with vaults := modVault vault (fun v => { v with pend := v.pend + fee }) s.c.vaults } }
   | .gift toCol asset amount =>
     if toCol then .ok { s with c := { s.c with bal := Collector.add s.c.bal asset amount } }
-    else if asset = cfg.c.dist then .ok { s with d := Distributor.gift s.d amount }
-    else .ok s
-  | .addRoute sender asset hops =>
+    else .ok { s with d := Distributor.gift s.d asset amount }
+  | .addRoute sender offer ask hops =>
     if sender ≠ cfg.c.owner then .err
-    else if Collector.simOk s.c.pools hops = true then .ok { s with c := { s.c with routes := updHops s.c.routes asset hops } }
+    else if Collector.simOk s.c.pools hops = true then .ok { s with rts := updRts s.rts ask offer hops }
     else .err
-  | .rmRoute sender asset =>
+  | .rmRoute sender offer ask =>
     if sender ≠ cfg.c.owner then .err
-    else if (s.c.routes asset).isEmpty then .err
-    else .ok { s with c := { s.c with routes := updHops s.c.routes asset [] } }
+    else if (s.rts ask offer).isEmpty then .err
+    else .ok { s with rts := updRts s.rts ask offer [] }
+  | .setDist sender asset =>
+    match Distributor.setDist cfg.d s.d sender asset with
+    | .ok d' => .ok { s with d := d' }
+    | .err => .err
+    | .panic => .panic
   | .unreg sender pool =>
     if sender ≠ cfg.c.owner then .err
     else match s.c.pools[pool]? with
@@ -140,7 +166,7 @@ def step (cfg : Cfg) (s : St) : Op → Res St
     | .err => .err
     | .panic => .panic
   | .aggregate sender f router acc =>
-    match Collector.aggregateFees cfg.c s.c sender f router acc with
+    match Collector.aggregateFees (ccfg cfg s) (cview s) sender f router acc with
     | .ok (c', _, _) => .ok { s with c := c' }
     | .err => .err
     | .panic => .panic
